@@ -89,6 +89,9 @@ STAGES = {
             S("histories", "^TestC20$", quick=120, thorough=1500, shards=(6, 16), shrinktime="90s")],
 }
 
+STAGES["C17"].append(S("fuzz", "^$", tiers=("thorough",), shards=(1, 1), fuzz={"target": "^FuzzC17$", "time": {"quick": "10s", "thorough": "120s"}}, timeout=("10m", "30m")))
+STAGES["C19"].append(S("fuzz", "^$", tiers=("thorough",), shards=(1, 1), fuzz={"target": "^FuzzC19$", "time": {"quick": "10s", "thorough": "180s"}}, timeout=("10m", "30m")))
+
 for _pid, _tests in {"C01": ["TestC01"], "C02": ["TestC02"], "C03": ["TestC03", "TestC03Raw"], "C04": ["TestC04"], "C06": ["TestC06Mixed"], "C08": ["TestC08"],
                      "C09": ["TestC09Mixed"], "C10": ["TestC10"], "C11": ["TestC11"], "C12": ["TestC12"], "C13": ["TestC13", "TestC13Silent"],
                      "C14": ["TestC14ServerLists", "TestC14Interleaved"], "C15": ["TestC15", "TestC15Inbound"], "C16": ["TestC16"],
